@@ -95,7 +95,12 @@ def make_contrast(kind, o, levels):
     if kind == "diff":
         return C.DiffContrasts(backward=o.get("backward", True))
     if kind == "poly":
-        return C.PolyContrasts(scores=o.get("scores"))
+        sc = o.get("scores")
+        if sc is not None and o.get("scores_as") == "array":  # the scores handed over as a numpy array / tuple rather than a list
+            sc = np.array(sc)
+        elif sc is not None and o.get("scores_as") == "tuple":
+            sc = tuple(sc)
+        return C.PolyContrasts(scores=sc)
     raise ValueError(kind)
 
 
@@ -122,6 +127,8 @@ def option_grid(n):
     grid.append(("poly", {}))
     grid.append(("poly", {"scores": [float(i * i + 1) for i in range(n)]}))
     grid.append(("poly", {"scores": [float(3 * i - 2) for i in range(n)]}))
+    grid.append(("poly", {"scores": [float(i * i + 1) for i in range(n)], "scores_as": "array"}))
+    grid.append(("poly", {"scores": [float(2 * i + 1) for i in range(n)], "scores_as": "tuple"}))
     return grid
 
 
